@@ -140,6 +140,12 @@ func RunHeaders(t *sim.Tape, tier string) *sim.RunResult {
 		h.stats.Inc("hdr.unmined-run")
 	}
 	behaviour := pick(t, "honest", "constant", "mixed", "future", "decreasing")
+	// a miner's clock knows fractions of a second, and header validation takes
+	// such a timestamp: in some runs the stamps are left as the clock gives them
+	subSecond := t.Chance(1, 5)
+	if subSecond {
+		h.stats.Inc("hdr.sub-second-run")
+	}
 	defer func() {
 		if r := recover(); r != nil {
 			res.HarnessErr = fmt.Sprintf("harness panic: %v", r)
@@ -191,7 +197,10 @@ func RunHeaders(t *sim.Tape, tier string) *sim.RunResult {
 		if ts.Before(med) {
 			ts = med
 		}
-		if r := ts.Truncate(time.Second); r.Before(ts) {
+		if subSecond && t.Chance(2, 3) {
+			ts = ts.Add(time.Duration(t.Range(1, 999)) * time.Millisecond)
+		}
+		if r := ts.Truncate(time.Second); r.Before(ts) && !subSecond {
 			ts = r.Add(time.Second)
 		}
 		blk := types.Block{ParentID: s.Index.ID, Timestamp: ts, MinerPayouts: []types.SiacoinOutput{{Value: s.BlockReward(), Address: minerAddr}}}
